@@ -377,14 +377,14 @@ def dual_eval(e, pt, n, info):
     raise ValueError(t)
 
 
-def py_oracle(e, pt, n):
+def py_oracle(e, pt, n, min_base=0.25):
     """same layout as the model's (oracle ...) answer, with floats instead of (num den)"""
     info = {"mind": float("inf"), "minbase": float("inf")}
     try:
         d = dual_eval(e, [float(x) for x in pt], n, info)
     except (ValueError, ZeroDivisionError, OverflowError):
         return ["ok", 0, "none", 0.0, [0.0] * n, [0.0] * n, 0.0]
-    ok = info["minbase"] >= 0.25 and info["mind"] >= 0.25
+    ok = info["minbase"] >= min_base and info["mind"] >= min_base
     return ["ok", 1 if ok else 0, "none", d.v, d.g, d.mg, d.m]
 
 
@@ -699,6 +699,24 @@ def run(tier, replay=None):
         if vars_of(a) and vars_of(b):
             raw.append({"kind": "multi3jac", "exprs": [a, b], "n": 4})
 
+    atoms5 = [("v", i) for i in range(4)] + [("c", a, b) for a, b in CONSTS]
+    for _ in range(12 if tier == "quick" else 150):
+        t = rand_tree(rng, rng.randint(2, 5), atoms5)
+        if vars_of(t):
+            raw.append({"kind": "matmulti", "exprs": [("mul", ("v", 4), t)], "n": 5})
+    # points whose components differ by factors of 10^3 .. 10^5, curved separable functions, judged per component by 1e-5 relative
+    F = lambda f, a: ("fn", f, a)
+    V3 = [("v", 0), ("v", 1), ("v", 2)]
+    curved = [lambda v: F("sqrt", v), lambda v: F("log", v), lambda v: ("gpow", v, ("c", 3, 2)), lambda v: ("div", ("c", 1, 1), v),
+              lambda v: F("exp", ("div", v, ("c", 1000, 1))), lambda v: ("gpow", v, ("c", 1, 2))]
+    spreads = [["0.02", "40", "700"], ["700", "40", "0.02"], ["0.05", "5", "2000"], ["3000", "0.5", "0.01"], ["0.01", "1000", "10"], ["900", "0.03", "30"]]
+    for i in range(len(curved)):
+        for j, sp in enumerate(spreads):
+            fs = [curved[(i + q) % len(curved)] for q in range(3)]
+            t = ("add", fs[0](V3[0]), ("add", fs[1](V3[1]), fs[2](V3[2])))
+            if tier == "thorough" or (i + j) % 2 == 0:
+                raw.append({"kind": "spread", "exprs": [t], "n": 3, "py": True, "strict": True, "fixed_point": [Fraction(x) for x in sp]})
+
     # vector functions that only MOVE data (identity, reverse, take, drop, index lists, rotations built from slices): their
     # result may share storage with the argument; the exact Jacobian is a selection matrix (oracle: the extracted model)
     V = [("v", 0), ("v", 1), ("v", 2)]
@@ -757,7 +775,7 @@ def run(tier, replay=None):
     for ci, pt in cand:
         c = raw[ci]
         if c.get("py"):
-            ors = [py_oracle(e, pt, c["n"]) for e in c["exprs"]]
+            ors = [py_oracle(e, pt, c["n"], 0.005 if c.get("strict") else 0.25) for e in c["exprs"]]
         else:
             ors = outs[oi:oi + len(c["exprs"])]
             oi += len(c["exprs"])
@@ -841,11 +859,33 @@ def run(tier, replay=None):
                 evals.append({"label": ":>", "expr": "f:>m", "bitexact": be})
                 evals.append({"label": "nabla", "expr": "m∇f", "bitexact": be})
                 evals.append({"label": ":>", "expr": "f:>" + mlit, "bitexact": be})
+                # the same matrix as a NON-CONTIGUOUS array: built by computation (transpose, reversed rows, strided take), not as a literal
+                tlit = "[" + vec_lit([pt[0], pt[2]]) + " " + vec_lit([pt[1], pt[3]]) + "]"
+                rlit = "[" + vec_lit(pt[2:]) + " " + vec_lit(pt[:2]) + "]"
+                blit = "[" + vec_lit(pt[:2]) + " " + vec_lit(pt[2:]) + " " + vec_lit(pt[:2]) + "]"
+                defs += ["mt::+" + tlit, "mr::|" + rlit, "ms::2#" + blit]
+                for nm in ("mt", "mr", "ms"):
+                    evals.append({"label": ":>", "expr": "f:>" + nm})
+                    evals.append({"label": "nabla", "expr": nm + "∇f"})
+                evals.append({"label": ":>", "expr": "f:>+" + tlit})
             else:
                 defs.append("g::{" + render(c["elem"], lambda _i: "x") + "}")
                 be = {"mode": "vector", "params": [["q", mbase]], "call": "g(q)"}
                 evals.append({"label": "jac", "expr": "m∂g", "bitexact": be})
                 evals.append({"label": "jac", "expr": ".jacobian(g;m)", "bitexact": be})
+        elif c["kind"] == "matmulti":
+            # a transposed (non-contiguous) matrix as one parameter of a multi-parameter gradient: l = s * t(wm)
+            tlit = "[" + vec_lit([pt[0], pt[2]]) + " " + vec_lit([pt[1], pt[3]]) + "]"
+            defs += ["wm::+" + tlit, "s::" + flit(pt[4]),
+                     "lm::{" + render(c["exprs"][0], lambda k: "s" if k == 4 else "((wm@%d)@%d)" % (k // 2, k % 2)) + "}"]
+            evals.append({"label": "multi:>", "layout": [4, 1], "expr": "lm:>[wm s]"})
+        elif c["kind"] == "spread":
+            # components of very different magnitude (numeric step must suit every coordinate)
+            defs += [BKF, "p::" + vec_lit(pt), "f::{" + render(c["exprs"][0], vvec) + "}"]
+            be = {"mode": "scalar", "params": [["q", pf]], "call": "f(q)"}
+            evals.append({"label": ":>", "expr": "f:>p", "bitexact": be})
+            evals.append({"label": "nabla", "expr": "p∇f", "bitexact": be})
+            evals.append({"label": "nabla", "expr": vec_lit(pt) + "∇f", "bitexact": be})
         elif c["kind"] in ("multi3", "multi3jac"):
             # three parameters of mixed shapes: a scalar, w a 2-vector, c a 1-element vector
             v3 = lambda k: ["a", "(w@0)", "(w@1)", "(c@0)"][k]
@@ -938,7 +978,7 @@ def run(tier, replay=None):
                 label = ev["label"]
                 chk.count("evaluations")
                 chk.count("%s_%s" % (b, label))
-                key = (b, label, ev["expr"] if c["kind"] in ("jacsel", "jacsel2", "lexp", "mat", "matred", "matjac", "multi3") else "", json.dumps(c["exprs"]))
+                key = (b, label, ev["expr"] if c["kind"] in ("jacsel", "jacsel2", "lexp", "mat", "matred", "matjac", "multi3", "spread", "matmulti") else "", json.dumps(c["exprs"]))
                 if key not in seen:
                     seen.add(key)
                     chk.count("distinct_nontrivial")
@@ -962,7 +1002,12 @@ def run(tier, replay=None):
                     for gi, (g, x) in enumerate(zip(got, exp)):
                         for ci2, (gb, (ex, magd, magf)) in enumerate(zip(g, x)):
                             gv = bits_to_float(gb)
-                            tol = (1e-5 * float(magd) + 1e-8 * float(magf) + (1e-9 if c.get("py") else 1e-12)) if numeric \
+                            if c.get("strict") and numeric:
+                                # the property's own 1e-5 relative, per component, plus four times the rounding noise of a central difference
+                                tol = 1e-5 * abs(float(ex)) + 4 * 2.3e-16 * float(magf) / 1e-6
+                            else:
+                                tol = -1.0
+                            tol = tol if tol >= 0 else (1e-5 * float(magd) + 1e-8 * float(magf) + (1e-9 if c.get("py") else 1e-12)) if numeric \
                                 else (1e-4 * float(magd) + 1e-5 * float(magf) + 1e-7)
                             if not (abs(gv - float(ex)) <= tol):
                                 bad = {"what": "value differs from the exact derivative", "parameter": gi, "component": ci2, "got": gv,
